@@ -11,7 +11,7 @@ PID = 'C04'
 HARNESS = 'h_c04'
 MODEL_MODULE = 'V.C04.Model'
 NEEDS_LPCONVERT = True
-READY = False
+READY = True
 INT_MAX = 2 ** 31 - 1
 SMALL = [16, 67]
 VARIANTS = {'shipped': {}}
@@ -183,8 +183,10 @@ def nontrivial(c, obs):
 
 def obs_equal(c, impl, model):
     mode = c[0]
-    if mode > 2:
-        return True
+    if mode > 2 or not model or model == [-1]:
+        return True       # pipelines and the smodels special-predicate options are not modelled (sanitizer runs + oracle only)
+    if 0 in c[3:3 + c[2]]:
+        return True       # a NUL byte ends the visible window of the real buffer at a buffer-dependent place (C09 excludes NUL); oracle only
     if len(impl) < 4 or len(model) < 4:
         return False
     # status, error count and calls must agree; the error line only when an error was reported; leak flag is implementation-only
